@@ -242,6 +242,7 @@ World *build_forward(const J &plan)
 	C20Monitor *mon = new C20Monitor(w, fw);
 	w->add(mon);
 	w->add(mk_c14_ledger(w, false));
+	w->add(mk_probes(w));
 	w->op_hook = [ww, fw](const J &op) {
 		if (op.gets("op") != "ask") return false;
 		std::string n = "ask" + std::to_string(op.geti("who"));
